@@ -157,7 +157,90 @@ func app(f string, args ...string) string {
 	if len(args) == 0 {
 		return f
 	}
+	if len(args) == 1 {
+		// accessor applied to its constructor
+		switch f {
+		case "slc-arr", "slc-off", "slc-len":
+			if strings.HasPrefix(args[0], "(mk-slc ") {
+				if as := sexprArgs(args[0]); len(as) == 3 {
+					return as[map[string]int{"slc-arr": 0, "slc-off": 1, "slc-len": 2}[f]]
+				}
+			}
+		case "mp-dom", "mp-val", "mp-card":
+			if strings.HasPrefix(args[0], "(mk-mp ") {
+				if as := sexprArgs(args[0]); len(as) == 3 {
+					return as[map[string]int{"mp-dom": 0, "mp-val": 1, "mp-card": 2}[f]]
+				}
+			}
+		}
+	}
 	return "(" + f + " " + strings.Join(args, " ") + ")"
+}
+
+// sexprArgs splits "(f a b c)" into its top-level arguments.
+func sexprArgs(s string) []string {
+	if len(s) < 2 || s[0] != '(' || s[len(s)-1] != ')' {
+		return nil
+	}
+	body := s[1 : len(s)-1]
+	var out []string
+	depth, start := 0, -1
+	inBar := false
+	for i := 0; i < len(body); i++ {
+		c := body[i]
+		if c == '|' {
+			inBar = !inBar
+		}
+		if inBar {
+			continue
+		}
+		switch c {
+		case '(':
+			if depth == 0 && start < 0 {
+				start = i
+			}
+			depth++
+		case ')':
+			depth--
+			if depth == 0 {
+				out = append(out, body[start:i+1])
+				start = -1
+			}
+		case ' ', '\n', '\t':
+			if depth == 0 && start >= 0 {
+				out = append(out, body[start:i])
+				start = -1
+			}
+		default:
+			if depth == 0 && start < 0 {
+				start = i
+			}
+		}
+	}
+	if start >= 0 {
+		out = append(out, body[start:])
+	}
+	if len(out) == 0 {
+		return nil
+	}
+	return out[1:]
+}
+
+// slcPart builds (slc-xxx s) with constructor simplification.
+func slcArr(s string) string { return app("slc-arr", s) }
+func slcOff(s string) string { return app("slc-off", s) }
+func slcLen(s string) string { return app("slc-len", s) }
+
+// slcAt is the term for element i of slice s.
+func slcAt(s, i string) string {
+	off := slcOff(s)
+	if off == "0" {
+		return "(select " + slcArr(s) + " " + i + ")"
+	}
+	if i == "0" {
+		return "(select " + slcArr(s) + " " + off + ")"
+	}
+	return "(select " + slcArr(s) + " (+ " + off + " " + i + "))"
 }
 
 // ---------------------------------------------------------------------------
@@ -481,7 +564,16 @@ func (d *Decls) freshName(hint string) string {
 
 func (d *Decls) freshConst(hint string, t types.Type) T {
 	n := d.freshName(hint)
-	d.declareConst(n, d.sortOf(t))
+	sn := d.sortOf(t)
+	if strings.HasPrefix(sn, "(Slc ") {
+		// a fresh slice is a fresh array with offset 0 and a fresh length:
+		// keeps index terms free of offset arithmetic
+		es := sn[5 : len(sn)-1]
+		d.declareConst(n+".arr", "(Array Int "+es+")")
+		d.declareConst(n+".len", "Int")
+		return T{S: "(mk-slc " + n + ".arr 0 " + n + ".len)", Ty: t}
+	}
+	d.declareConst(n, sn)
 	return T{S: n, Ty: t}
 }
 
